@@ -3,8 +3,8 @@ package main
 func init() {
 	register(&PropDef{
 		ID: "C17", Patterns: []string{"./interp"}, Specs: []string{"build"},
-		Covered: []string{"contains", "buildTagOk", "buildOptionOk", "buildLineOk", "skipFile", "goMinorVersion", "knownOs/knownArch tables"},
-		Uncov:   []string{"buildOk comment-group selection (go/parser)", "where selection is applied (ast.go parse, src.go importSrc)"},
+		Covered: []string{"contains", "buildTagOk", "buildOptionOk", "buildLineOk", "skipFile", "goMinorVersion", "knownOs/knownArch tables", "buildOk: constraints evaluated in the given context, a rejected file adds no yaegi:tags"},
+		Uncov:   []string{"go/parser's comment groups (opaque)", "where selection is applied (ast.go parse, src.go importSrc)"},
 		Extra: func(r *Run) {
 			r.tableSuperset("interp", "knownOs", "knownOSspec")
 			r.tableSuperset("interp", "knownArch", "knownArchSpec")
@@ -62,7 +62,7 @@ func init() {
 	register(&PropDef{
 		ID: "C10", Patterns: []string{"./interp"},
 		Extra:   func(r *Run) { r.idWriters() },
-		Covered: []string{"Execute refreshes the root frame id before any run", "resizeFrame leaves ids untouched", "entry obligation of host-callable wrappers (expected findings)"},
+		Covered: []string{"Execute refreshes the root frame id before any run", "resizeFrame leaves ids untouched", "entry obligation of host-callable wrappers (expected findings)", "run-id gate of runCfg in both loops (frame currentness demanded from callers only)"},
 		Uncov:   []string{"whole histories of evaluations; symbol tables after a cancelled compile phase"},
 		Trusted: trusted,
 	})
@@ -87,7 +87,7 @@ func init() {
 		Extra: func(r *Run) {
 			r.deferShape()
 		},
-		Covered: []string{"runCfg's deferred function runs every deferred entry once, in order (on normal exit; the exceptional exit is a known finding)", "recover reads/clears only the caller frame", "defer producers push-front a fresh record", "defer arguments are copies (syntactic obligation; known finding)", "Execute/EvalWithContext convert every panic into interp.Panic carrying the original value", "restricted exit functions never return normally"},
+		Covered: []string{"runCfg's deferred function runs every deferred entry once, in order (on normal exit; the exceptional exit is a known finding)", "recover reads/clears only the caller frame", "defer producers push-front a fresh record", "defer arguments are copies (syntactic obligation; known finding)", "Execute/EvalWithContext convert every panic into interp.Panic carrying the original value", "restricted exit functions never return normally", "`defer panic(v)` must wait for the function exit (known finding)", "frame locks: released on every explicit exit of runCfg's deferred function; not held across deferred calls (known finding)"},
 		Uncov:   []string{"which run-time faults reflect raises", "panic position in the output", "callBin's defer branch (its closure is selected among eight; contract not written)"},
 		Trusted: []string{"T1 go toolchain, solvers", "T2 govc", "reflect.Value.Call applies its receiver once and may panic", "T5 log.Panic* panic"},
 	})
@@ -96,8 +96,8 @@ func init() {
 func init() {
 	register(&PropDef{
 		ID: "C02", Patterns: []string{"./interp"}, Specs: []string{"ops", "opsbv"},
-		Covered: []string{"operand extractors of value.go", "operator generators of op.go: every run-time closure against the Go-spec value per kind"},
-		Uncov:   []string{"which generator cfg.go selects and into which slot (A1, A2)", "float32 double rounding (T7)"},
+		Covered: []string{"operand extractors of value.go", "operator generators of op.go: every run-time closure against the Go-spec value per kind", "cfg binary/unary expression cases: an operator node stored into an interface destination has a concrete type its generator can compute in"},
+		Uncov:   []string{"which generator cfg.go selects and into which slot in general (A1, A2)", "float32 double rounding (T7)"},
 		Trusted: []string{"T1 go toolchain, solvers", "T2 govc", "T3 reflect.Value model (Set* truncate to kind, Int/Uint read the content, Convert is Go conversion)", "A1 typing precondition", "A2 genValue/genValueOutput denote operand/destination", "T7 float32 double rounding"},
 	})
 }
@@ -105,8 +105,8 @@ func init() {
 func init() {
 	register(&PropDef{
 		ID: "C03", Patterns: []string{"./interp"}, Specs: []string{"ops", "consts"},
-		Covered: []string{"representableConst for every integer kind and every integer constant", "constant folders: untyped operands fold to go/constant's operation with the spec token (QUO_ASSIGN exactly for untyped integer results); typed operands compute the kind's operation", "typed constant overflow must be rejected (known finding)"},
-		Uncov:   []string{"float/complex representability (rounding inside go/constant)", "convertConst/convertUntyped kind routing", "iota bookkeeping and implicit repetition (ast/gta/cfg walks)", "literal parsing"},
+		Covered: []string{"representableConst for every integer kind and every integer constant", "constant folders: untyped operands fold to go/constant's operation with the spec token (QUO_ASSIGN exactly for untyped integer results); typed operands compute the kind's operation", "typed constant overflow must be rejected (known finding)", "representableConst for float, complex, string and bool kinds", "convertConst / convertConstantValue / genValueAs: single rounding per target kind, no refusal of representable constants", "representable / convertUntyped imply representableConst; return statement, comparison operand and send statement (finding) demand representability"},
+		Uncov:   []string{"rounding inside go/constant (its functions are uninterpreted)", "iota bookkeeping and implicit repetition (ast/gta/cfg walks)", "literal parsing", "the remaining places where cfg gives a constant a type (composite literal elements, map keys, call arguments go through check.assignment, which is not under contract)"},
 		Trusted: []string{"T1 go toolchain, solvers", "T2 govc", "T4 go/constant computes exact constant arithmetic (BinaryOp/UnaryOp/Shift/ToInt uninterpreted functions of the token; BitLen(x) <= k iff |x| < 2^k)", "T3 reflect.Value model"},
 	})
 }
@@ -115,8 +115,8 @@ func init() {
 	register(&PropDef{
 		ID: "C19", Patterns: []string{"./interp"},
 		Extra: func(r *Run) { r.debuggerFrame() },
-		Covered: []string{"both loops of runCfg apply exec closures only behind the run-id gate (shared with C09)", "Debugger.exec/enterCall/exitCall assign only debugger state (f.debug, goroutine records, dbg.*)", "setBreakOnLine/setBreakOnCall set exactly their own flag; the visitor of SetBreakpoints keeps function breakpoints in the line pass and vice versa"},
-		Uncov:   []string{"breakpoint reporting order and node tracking by closure-pointer comparison", "event delivery and the terminate event", "stepping requests"},
+		Covered: []string{"both loops of runCfg apply exec closures only behind the run-id gate (shared with C09)", "Debugger.exec/enterCall/exitCall assign only debugger state (f.debug, goroutine records, dbg.*)", "setBreakOnLine/setBreakOnCall set exactly their own flag; the visitor of SetBreakpoints keeps function breakpoints in the line pass and vice versa", "Debugger.exec: per-node stop decision against a ghost trace of the event callback (breakpoints always reported, step filters)", "node tracking of the debugger loop (known finding: code-pointer comparison; tie-break pinned)"},
+		Uncov:   []string{"order of events across nodes and goroutines", "the terminate event", "Step/Continue request handling outside Debugger.exec"},
 		Trusted: []string{"T1 go toolchain, solvers", "T2 govc", "A3 sequential semantics"},
 	})
 }
@@ -124,9 +124,9 @@ func init() {
 func init() {
 	register(&PropDef{
 		ID: "C12", Patterns: []string{"./interp"},
-		Extra:   func(r *Run) { r.compilePhaseEffects() },
-		Covered: []string{"eval reaches Execute only after compileSrc returned no error", "compile-phase functions reach no execution function in the static call graph (importSrc reported separately)", "exec closures are applied only at run time", "assignableTo: identical types accepted, distinct defined types rejected"},
-		Uncov:   []string{"the other type rules of typecheck.go and the operator admissibility tables", "convertibleTo / implements against the Go spec", "name resolution errors in cfg.go/gta.go", "calls through function values and interfaces in the call graph"},
+		Extra:   func(r *Run) { r.compilePhaseEffects(); r.opTables() },
+		Covered: []string{"eval reaches Execute only after compileSrc returned no error", "compile-phase functions reach no execution function in the static call graph (importSrc reported separately)", "exec closures are applied only at run time", "assignableTo: identical types accepted, distinct defined types rejected", "comparison: comparable / ordered / nil rules", "convertibleTo: exactly the admitted conversions"},
+		Uncov:   []string{"the other type rules of typecheck.go and the operator admissibility tables", "implements against the Go spec", "name resolution errors in cfg.go/gta.go", "calls through function values and interfaces in the call graph"},
 		Trusted: []string{"T1 go toolchain, solvers", "T2 govc", "itype.equals/underlying/id are pure functions of their receiver"},
 	})
 }
@@ -135,14 +135,14 @@ func init() {
 	register(&PropDef{
 		ID: "C15", Patterns: []string{"./interp"},
 		Extra:   func(r *Run) { r.phaseOrder(); r.depsThroughFunctions() },
-		Covered: []string{"getVarDependencies records every reference to another package-level variable in the initialiser (all positions except selector field names)", "genGlobalVarDecl: canInit is 'all dependencies already emitted'", "phase order root -> variables -> inits -> main in Execute and importSrc", "importSrc evaluates a package at most once"},
-		Uncov:   []string{"dependencies through the bodies of functions and methods (known finding)", "that the emitted order is the earliest-ready order of the Go spec (whole-loop invariant not attempted)", "init functions kept in source order inside cfg"},
+		Covered: []string{"getVarDependencies records every reference to another package-level variable in the initialiser (all positions except selector field names)", "genGlobalVarDecl: canInit is 'all dependencies already emitted'", "phase order root -> variables -> inits -> main in Execute and importSrc", "importSrc evaluates a package at most once", "only dependencies of the same batch block a declaration", "exactly the receiver-less functions named init are collected, appended in walk order"},
+		Uncov:   []string{"dependencies through the bodies of functions and methods (known finding)", "that the emitted order is the earliest-ready order of the Go spec (whole-loop invariant not attempted)"},
 		Trusted: []string{"T1 go toolchain, solvers", "T2 govc", "scope.lookup and childPos are pure functions"},
 	})
 	register(&PropDef{
 		ID: "C16", Patterns: []string{"./interp"},
-		Covered: []string{"importSrc: already imported => recorded name returned, no evaluation step; cycle check precedes every evaluation step and yields an error; success registers the package; relative imports of main resolve against '.' for nested packages"},
-		Uncov:   []string{"vendor / GOPATH search (pkgDir, previousRoot, effectivePkg path-segment manipulation): not under contract", "real vs. virtual filesystem equivalence"},
+		Covered: []string{"importSrc: already imported => recorded name returned, no evaluation step; cycle check precedes every evaluation step and yields an error; success registers the package; relative imports of main resolve against '.' for nested packages", "previousRoot: every ancestor below GOPATH/src is searched for a vendor directory through the supplied file system, nearest first"},
+		Uncov:   []string{"pkgDir and effectivePkg (path-segment manipulation): not under contract", "real vs. virtual filesystem equivalence beyond previousRoot's lookups"},
 		Trusted: []string{"T1 go toolchain, solvers", "T2 govc"},
 	})
 }
@@ -151,7 +151,7 @@ func init() {
 	register(&PropDef{
 		ID: "C18", Patterns: []string{"./extract"},
 		Extra:   func(r *Run) { r.extractShape() },
-		Covered: []string{"fixConst: exact textual value and token per constant kind, helper imports recorded", "classification switch of genContent: constants and functions by value, variables by address, types as types, generic objects skipped (shape obligations)"},
+		Covered: []string{"fixConst: exact textual value and token per constant kind, helper imports recorded", "classification switch of genContent: constants and functions by value, variables by address, types as types, generic objects skipped (shape obligations)", "qualifier: every foreign package printed is imported", "constraint-interface test on the complete method set"},
 		Uncov:   []string{"method-string synthesis (params/args/results), template rendering and format.Source", "that the output compiles for every package", "float constants are printed from a big.Float (see C14 finding)"},
 		Trusted: []string{"T1 go toolchain, solvers", "T2 govc", "fmt.Sprintf is a pure function of its arguments; go/constant ExactString/String are distinct pure functions"},
 	})
@@ -160,8 +160,8 @@ func init() {
 func init() {
 	register(&PropDef{
 		ID: "C04", Patterns: []string{"./interp"},
-		Covered: []string{"single assignment copies content into the existing location", "define (:=) allocates a new location holding the copy and leaves the previous one untouched", "multi-assignment reads every right-hand side into a fresh temporary before the first write (first loop of the swap-safe closure)"},
-		Uncov:   []string{"sequences of operations (the property's history quantifier)", "call argument copies, range copies, composite literals, append/copy/slice builtins, map element update", "reflect's own copy semantics (T3)"},
+		Covered: []string{"single assignment copies content into the existing location", "define (:=) allocates a new location holding the copy and leaves the previous one untouched", "multi-assignment reads every right-hand side into a fresh temporary before the first write (first loop of the swap-safe closure)", "slice expressions: operands in order", "spread argument of a variadic call shares the caller's slice"},
+		Uncov:   []string{"sequences of operations (the property's history quantifier)", "other call argument copies, range copies, composite literals, append/copy builtins, map element update", "reflect's own copy semantics (T3)"},
 		Trusted: []string{"T1 go toolchain, solvers", "T2 govc", "T3 reflect.Value model (Set copies content, New allocates)", "value functions are pure lookups returning pre-state locations"},
 	})
 }
@@ -169,7 +169,7 @@ func init() {
 func init() {
 	register(&PropDef{
 		ID: "C07", Patterns: []string{"./interp"},
-		Covered: []string{"script calling a host function from a multi-value assignment: each result is stored in a new slot for a newly declared variable and in place for a redeclared or assigned one (slot identity, for every position)"},
+		Covered: []string{"script calling a host function from a multi-value assignment: each result is stored in a new slot for a newly declared variable and in place for a redeclared or assigned one (slot identity, for every position)", "plain host call: result i is stored in slot findex+i, func results replace the slot, no other slot is touched", "frame ids of wrapper frames (shared with C09/C10)"},
 		Uncov:   []string{"host -> script argument transfer and result slice of genFunctionWrapper/getFunc", "argument vector preparation of callBin (getBinValue, variadic, interface wrapping)", "Execute's wrapping of function results, Use table copy", "reflect.Call itself"},
 		Trusted: []string{"T1 go toolchain, solvers", "T2 govc", "T3 reflect.Value model", "value functions are pure lookups; destinations of one assignment are distinct slots (assumed)"},
 	})
@@ -179,8 +179,8 @@ func init() {
 	register(&PropDef{
 		ID: "C11", Patterns: []string{"./interp"},
 		Extra:   func(r *Run) { r.phaseOrder(); r.frameLayoutResync() },
-		Covered: []string{"resizeFrame keeps every existing global slot (same location) and only grows the frame", "Execute phase order", "the importer's frame layout is re-synchronised after every successful source import"},
-		Uncov:   []string{"equality of outputs across cuts of a program", "incremental parse classification (ast.go parse / wrapInMain)", "symbol redefinition in gta/cfg", "Compile/Execute vs Eval equivalence"},
+		Covered: []string{"resizeFrame keeps every existing global slot (same location) and only grows the frame", "Execute phase order", "the importer's frame layout is re-synchronised after every successful source import", "source name of an unnamed piece", "main scheduled only by the piece that defines it", "multi-value definitions stay redeclarable across pieces", "nested := (known finding) and top-level comma-ok definitions (known finding)"},
+		Uncov:   []string{"equality of outputs across cuts of a program", "incremental parse classification (ast.go parse / wrapInMain)", "redefinition of functions and types", "Compile/Execute vs Eval equivalence"},
 		Trusted: []string{"T1 go toolchain, solvers", "T2 govc"},
 	})
 }
